@@ -36,14 +36,27 @@ theorem query_filter_full_fails :
       o.parseURL s = none ∧ queryStr o acts s = s ∧ occurs tok (queryStr o acts s) = true :=
   ⟨wO, [⟨.delete, str "token", []⟩], str "/a?token=" ++ wTok ++ str "#%zz", wTok, by decide⟩
 
-/-- FULL STATEMENT (false): for every list element that denotes an IP address, ip_mask emits it with the
-    host bits cleared:  `∀ o m4 m6 v, ¬ occurs (host part of v) (maskValue o m4 m6 v)`.
-    Refuted: `net.ParseIP` rejects a zoned IPv6 address (`fe80::1%eth0`, what `RemoteAddr` holds for a
-    link-local client) and `mask` then copies the element unchanged. -/
-theorem ipmask_full_fails :
+/-- what the standard library answers around `fe80::1%eth0`: `net.ParseIP` accepts `fe80::1` and rejects the
+    zoned spelling; `IP.String()` of the /32-masked address is `fe80::` -/
+def wZ : Oracles where
+  H := fun _ => str "e3b0c442"
+  trim := id
+  shp := fun _ => none
+  parseIP := fun s => if s = str "fe80::1" then some (.v6 [0xfe, 0x80, 0, 0, 0, 0, 0, 0, 0, 0, 0, 0, 0, 0, 0, 1]) else none
+  ipStr := fun m => if m = some [0xfe, 0x80, 0, 0, 0, 0, 0, 0, 0, 0, 0, 0, 0, 0, 0, 0] then str "fe80::" else str "?"
+  parseURL := fun _ => none
+  cookies := fun _ => []
+  reSpans := fun _ => []
+
+/-- Why the zone fix was needed (non-vacuity of `Props.ipmask_hides_host_bits` / `ipmask_zone_independent`):
+    the OLD element function handed the host to `net.ParseIP` with its zone; `net.ParseIP` rejects a zoned
+    IPv6 address (`fe80::1%eth0`, what `RemoteAddr` holds for a link-local client) and the element was copied
+    unchanged; the function as it is now cuts the zone off first and emits the masked address. -/
+theorem ipmask_old_code_fails :
     ∃ (o : Oracles) (v : Bytes), v = str "fe80::1%eth0" ∧ o.parseIP (hostOf o v) = none ∧
-      maskValue o (cidr4 16) (cidr6 32) v = v ∧ ipMaskStr o (cidr4 16) (cidr6 32) v = v :=
-  ⟨wO, str "fe80::1%eth0", by decide⟩
+      maskValueOld o (cidr4 16) (cidr6 32) v = v ∧
+      (o.parseIP (cutZone (hostOf o v))).isSome = true ∧ maskValue o (cidr4 16) (cidr6 32) v = str "fe80::" :=
+  ⟨wZ, str "fe80::1%eth0", by decide⟩
 
 /-- FULL STATEMENT (false): hash / ip_mask / query / regexp never emit the field they are configured on
     unchanged, for every field type.  Refuted: on a field that is neither a string nor a
